@@ -15,7 +15,7 @@ Property theorems (all n, all thread counts p ≥ 1, any strict weak order, both
   * `temporaries_ledger_balanced`      — n objects constructed in raw storage, n destroyed
   * `model_refines_spec`               — END TO END: the executed model `pmsort` returns the stable sort, adjacent
                                          merge windows, balanced ledger — all n, threads ≥ 1, both splittings;
-                                         only hypothesis about C08: `PartSpec` for the temporaries (exact splitting)
+                                         no assumption about multisequence_partition (C08 refinement_correct)
   * `small_input_untouched`            — n ≤ 1: nothing happens
 Local `std::(stable_)sort` and the per-thread `multiway_merge_base` (C05) are their specifications;
 offset vectors of exact splitting are assumed to satisfy the C08 specification.
@@ -23,6 +23,7 @@ offset vectors of exact splitting are assumed to satisfy the C08 specification.
 import TlxVerif.Proofs.C06Sampling
 import TlxVerif.Proofs.C07Phases
 import TlxVerif.Proofs.C06Refine
+import TlxVerif.Proofs.C07Final
 import TlxVerif.Proofs.C08Checker
 namespace TlxVerif.C06
 open TlxVerif.C08 (StrictWeak IsPartition)
@@ -123,14 +124,13 @@ theorem small_input_untouched (P : Params) (input : List Elem) (h : input.length
 `parallel_mergesort_base` — the function the driver runs — succeeds and leaves the stable sort of the input;
 every temporary object it constructs is destroyed; for n ≥ 2 the per-thread merge windows are adjacent and
 tile `[0, n)` and exactly n temporaries are constructed.  All inputs whose elements carry their positions,
-threads ≥ 1, oversampling ≥ 1, exact and sampling splitting. -/
+threads ≥ 1, oversampling ≥ 1, exact and sampling splitting; with the C08 correctness theorem no assumption
+about `multisequence_partition` is left. -/
 theorem model_refines_spec (P : Params) (hlt : StrictWeak P.lt) (input : List Elem) (hpos : input.Pairwise posLt)
-    (hthr : 1 ≤ P.threads) (hosf : 1 ≤ P.osf)
-    (hpart : P.exact = true → C07.PartSpec P.lt
-      ((slicesBy input (startsOf input.length (usedThreads P input.length))).map (sortStable P.lt))) :
+    (hthr : 1 ≤ P.threads) (hosf : 1 ≤ P.osf) :
     ∃ r, pmsort P input = .ok r ∧ r.out = sortStable P.lt input ∧ r.constructed = r.destroyed ∧
       (2 ≤ input.length → C07.TileFrom 0 input.length r.mergeWindows ∧ r.constructed = input.length) :=
-  pmsort_refines_spec P hlt input hpos hthr hosf hpart
+  pmsort_correct P hlt input hpos hthr hosf
 
 /-! ### non-vacuity: 7 elements, 3 threads, two keys -/
 
@@ -159,8 +159,8 @@ example : ((chunkRows ((slicesBy exInput (startsOf exInput.length 3)).map (sortS
 example : sortStable exLt exInput =
     [⟨1, 0, 1⟩, ⟨1, 0, 3⟩, ⟨1, 0, 6⟩, ⟨2, 0, 2⟩, ⟨2, 0, 5⟩, ⟨3, 0, 0⟩, ⟨3, 0, 4⟩] := by decide
 
--- (the former OPEN item pmsort_refines_spec is closed by `model_refines_spec`; its hypothesis `PartSpec` is the
---  C08 statement `msp_correct` for the locally sorted slices.)
+-- (the former OPEN item pmsort_refines_spec is closed by `model_refines_spec`; the C08 correctness theorem
+--  `C08.msp_correct_lists` discharges the hypothesis about multisequence_partition.)
 -- OPEN: schedule_independence — `merge_back_all_schedules` proves it per phase for the asserted window
 --   footprints; that the phases are separated (ThreadBarrierMutex is a barrier, C11) and that the real code's
 --   accesses stay inside those footprints is checked by the harness (per-position writer / copier, counts)
